@@ -364,6 +364,9 @@ type violationRec struct {
 	Digest     string         `json:"digest"`
 	Race       bool           `json:"race_build"`
 	Extra      map[string]any `json:"extra,omitempty"`
+	Seed       uint64         `json:"worker_seed"`
+	Start      uint64         `json:"worker_start"`
+	Stride     uint64         `json:"worker_stride"`
 }
 
 type summaryRec struct {
@@ -925,6 +928,7 @@ type replayFile struct {
 	Minimised      bool            `json:"minimised"`
 	Reproduced     bool            `json:"reproduced"`
 	ReplayEnv      []string        `json:"replay_env,omitempty"`
+	Prelude        *prelude        `json:"prelude,omitempty"`
 	RaceBuild      bool            `json:"race_build"`
 	Steps          uint64          `json:"steps"`
 	Tape           tape            `json:"tape"`
@@ -935,6 +939,17 @@ type replayFile struct {
 	FaultTrace     []string        `json:"fault_trace"`
 	TreeDigest     string          `json:"tree_digest"`
 	Extra          map[string]any  `json:"extra,omitempty"`
+}
+
+// prelude names runs to re-execute before the tape: what the worker process had
+// run before the violating run. Used only when the tape alone does not
+// reproduce the violation in a fresh process (a changed library that keeps
+// state between calls: a cache, a pool).
+type prelude struct {
+	Seed   uint64 `json:"seed"`
+	First  uint64 `json:"first"`
+	Stride uint64 `json:"stride"`
+	Count  uint64 `json:"count"`
 }
 
 func siteName(sc *scratch, id uint32) string {
@@ -1030,6 +1045,27 @@ func writeReplay(sc *scratch, id, tier string, v *violationRec) string {
 		rf.Minimised = false
 		write()
 		rf.Reproduced = check()
+		if !rf.Reproduced && v.Stride > 0 && v.Run >= v.Start {
+			// the finding may depend on what the worker process ran before: replay
+			// with the preceding runs of that worker as a prelude (last 64, then all)
+			n := (v.Run - v.Start) / v.Stride
+			for _, cnt := range []uint64{64, n} {
+				if cnt > n {
+					cnt = n
+				}
+				if cnt == 0 {
+					continue
+				}
+				rf.Prelude = &prelude{Seed: v.Seed, First: v.Run - cnt*v.Stride, Stride: v.Stride, Count: cnt}
+				write()
+				if rf.Reproduced = check(); rf.Reproduced {
+					break
+				}
+			}
+			if !rf.Reproduced {
+				rf.Prelude = nil
+			}
+		}
 		if !rf.Reproduced {
 			fmt.Fprintf(os.Stderr, "verifctl: replay of run %d does not reproduce %s in a fresh process: the violation was observed, but it depends on state left behind by earlier runs of the worker process, on a nondeterminism source inside the (changed) library that the simulator does not own (sync.Pool, the global rand source, ...), or on a simulator determinism failure; the replay file is marked reproduced=false\n", v.Run, v.Class)
 		}
